@@ -566,6 +566,9 @@ class C18(Prop):
             w = ctxlevel.retarget_and_delete(rndc)
             if w:
                 bads.append(dict(what=w, input="ctxlevel.retarget_and_delete()", finding=None))
+            w = ctxlevel.retarget_and_delete_block(rndc)
+            if w:
+                bads.append(dict(what=w, input="ctxlevel.retarget_and_delete_block()", finding=None))
         bads = [b for b in bads if b["finding"] is None][:10] + [b for b in bads if b["finding"]][:2]
         return dict(evaluations=len(runs), violations=bads, samples=[{"oracle": "operands, addends, untouched attributes and the exact edge set after the call"}])
 
